@@ -167,8 +167,16 @@ def process_noise(k=0):
         broken = AddExpression(ConstantExpression(2), None)          # a node with a missing operand: every renderer raises on it
         changed = AddExpression(ConstantExpression(2), VariableExpression("x"))
         changed.all_changed()
-        for f in (lambda: broken.terminal_text, lambda: str(broken), lambda: broken.evaluate({}), lambda: broken.to_math_ml(), lambda: changed.terminal_text,
-                  lambda: t.evaluate({}), lambda: p.parse("4 +"), lambda: p.parse("(((1.2.3"), lambda: p.parse("x # y"), lambda: TreeLayout().layout(broken)):
+        calls = [lambda: changed.terminal_text, lambda: broken.terminal_text, lambda: str(broken), lambda: broken.evaluate({}), lambda: broken.to_math_ml(),
+                 lambda: t.evaluate({}), lambda: p.parse("4 +"), lambda: p.parse("(((1.2.3"), lambda: p.parse("x # y"), lambda: TreeLayout().layout(broken)]
+        r = k % len(calls)
+        late = []
+        for f in calls[r:] + calls[:r]:          # a different call is the LAST one each time (what a failing call leaves behind is not repaired by a later good one)
+            try:
+                f()
+            except BaseException:  # noqa
+                late.append(f)
+        for f in late[:1 + k % 3]:
             try:
                 f()
             except BaseException:  # noqa
